@@ -198,4 +198,186 @@ Section Verify.
     assert (teqb (mth D) (mth D) = true) as -> by (apply teqb_spec; reflexivity).
     reflexivity.
   Qed.
+
+  (** * Consistency *)
+  Notation cons_loop := (cons_loop T hc).
+  Notation up_loop := (up_loop T hc).
+  Notation old_x := (old_x T hc).
+
+  Definition top_is (L : list T) (r : T) : Prop := exists F, ups F L = [r].
+
+  Lemma top_is_up L r : top_is L r -> top_is (up L) r.
+  Proof.
+    intros [F H]. destruct F as [|F].
+    - simpl in H. subst L. exists 0. reflexivity.
+    - exists F. exact H.
+  Qed.
+
+  Lemma strip_ones_spec : forall f i l,
+    strip_ones f (N.of_nat i) (N.of_nat l) =
+      (N.of_nat (i / 2 ^ tones f i), N.of_nat (l / 2 ^ tones f i)).
+  Proof.
+    induction f as [|f IH]; intros i l; cbn [strip_ones tones].
+    - change (2 ^ 0) with 1. rewrite !Nat.div_1_r. reflexivity.
+    - rewrite Nodd_of_nat. destruct (Nat.odd i).
+      + rewrite !Ndiv2_of_nat, IH. rewrite Nat.pow_succ_r'.
+        rewrite <- !Nat.div_div by (try pose proof (pow2_pos (tones f (i / 2))); lia). reflexivity.
+      + change (2 ^ 0) with 1. rewrite !Nat.div_1_r. reflexivity.
+  Qed.
+
+  Lemma up_loop_sound d : forall f L nh proof r rest,
+    L <> [] -> N.size_nat (N.of_nat (length L - 1)) = f ->
+    up_loop f nh proof = Some (r, rest) -> top_is L r ->
+    collision \/ nh = nth 0 L d.
+  Proof.
+    induction f as [|f IH]; intros L nh proof r rest Hne Hf Hrun Htop.
+    - apply size_nat_0 in Hf. simpl in Hrun. inversion Hrun; subst.
+      destruct L as [|x [|y l]]; simpl in *; try congruence; try lia.
+      destruct Htop as [F HF]. rewrite ups_single in HF. inversion HF. right; reflexivity.
+    - pose proof (size_nat_S _ _ Hf) as [Hl0 Hf'].
+      assert (Hlen : 2 <= length L) by lia.
+      cbn [Merkle.up_loop] in Hrun. destruct proof as [|p rest0]; [discriminate|].
+      rewrite Ndiv2_of_nat in Hf'.
+      assert (Hup : up L <> []) by (rewrite up_nil_iff; exact Hne).
+      rewrite <- (up_last_index L Hne) in Hf'.
+      destruct (IH _ _ _ _ _ Hup Hf' Hrun (top_is_up _ _ Htop)) as [C|E]; [left; exact C|].
+      rewrite (up_nth_pair T hc d L 0) in E by lia.
+      apply hc_inj in E. destruct E as [C|[E _]]; [left; exact C|]. right. exact E.
+  Qed.
+
+  Lemma cons_loop_sound d : forall f L i oh nh proof last' oh' nh' rest r rest2,
+    L <> [] -> i < length L -> N.size_nat (N.of_nat i) = f ->
+    cons_loop f (N.of_nat i) (N.of_nat (length L - 1)) oh nh proof = Some (last', oh', nh', rest) ->
+    up_loop (N.size_nat last') nh' rest = Some (r, rest2) ->
+    top_is L r ->
+    collision \/ (nh = nth i L d /\ oh' = old_x d f i oh L).
+  Proof.
+    induction f as [|f IH]; intros L i oh nh proof last' oh' nh' rest r rest2 Hne Hi Hf Hrun Hup Htop.
+    - apply size_nat_0 in Hf. assert (i = 0) by lia. subst i.
+      cbn [Merkle.cons_loop] in Hrun. inversion Hrun; subst.
+      destruct (up_loop_sound d _ L _ _ _ _ Hne eq_refl Hup Htop) as [C|E]; [left; exact C|].
+      right. split; [exact E | reflexivity].
+    - pose proof (size_nat_S _ _ Hf) as [Hi0 Hf']. rewrite Ndiv2_of_nat in Hf'.
+      assert (Hlen : 2 <= length L) by lia.
+      assert (HupL : up L <> []) by (rewrite up_nil_iff; exact Hne).
+      assert (Hi' : i / 2 < length (up L)) by (rewrite up_length; lia).
+      cbn [Merkle.cons_loop MerkleSpec.old_x] in Hrun |- *.
+      rewrite Nodd_of_nat, Nltb_of_nat, !Ndiv2_of_nat in Hrun.
+      rewrite <- (up_last_index L Hne) in Hrun.
+      odd_cases i.
+      + destruct proof as [|p rest0]; [discriminate|].
+        destruct (IH _ _ _ _ _ _ _ _ _ _ _ HupL Hi' Hf' Hrun Hup (top_is_up _ _ Htop)) as [C|[E1 E2]]; [left; exact C|].
+        rewrite (up_nth_pair T hc d L (i / 2)) in E1 by lia.
+        apply hc_inj in E1. destruct E1 as [C|[Ea Eb]]; [left; exact C|].
+        right. split.
+        * rewrite Eb. f_equal. lia.
+        * rewrite E2, Ea. f_equal. f_equal. f_equal. lia.
+      + destruct (Nat.ltb_spec i (length L - 1)) as [Hlt|Hge].
+        * destruct proof as [|p rest0]; [discriminate|].
+          destruct (IH _ _ _ _ _ _ _ _ _ _ _ HupL Hi' Hf' Hrun Hup (top_is_up _ _ Htop)) as [C|[E1 E2]]; [left; exact C|].
+          rewrite (up_nth_pair T hc d L (i / 2)) in E1 by lia.
+          apply hc_inj in E1. destruct E1 as [C|[Ea Eb]]; [left; exact C|].
+          right. split; [|exact E2]. rewrite Ea. f_equal. lia.
+        * destruct (IH _ _ _ _ _ _ _ _ _ _ _ HupL Hi' Hf' Hrun Hup (top_is_up _ _ Htop)) as [C|[E1 E2]]; [left; exact C|].
+          rewrite (up_nth_last T hc d L (i / 2)) in E1 by lia.
+          right. split; [|exact E2]. rewrite E1. f_equal. lia.
+  Qed.
+
+  (** the old tree is a prefix of the level reached by stripping the trailing ones of m-1 *)
+  Lemma old_prefix_level D m t i : m <= length D -> m = (i + 1) * 2 ^ t ->
+    ups t (firstn m D) = firstn (i + 1) (ups t D).
+  Proof.
+    intros Hm Em.
+    rewrite <- (firstn_skipn m D) at 2.
+    rewrite (ups_app T hc t (firstn m D) (skipn m D) (i + 1)) by (rewrite firstn_length; lia).
+    rewrite firstn_app.
+    rewrite (ups_length_mult T hc t (firstn m D) (i + 1)) by (rewrite firstn_length; lia).
+    rewrite Nat.sub_diag, firstn_all2 by (rewrite (ups_length_mult T hc t _ (i + 1)); [lia | rewrite firstn_length; lia]).
+    simpl. rewrite app_nil_r. reflexivity.
+  Qed.
+
+  Lemma top_is_mth L : L <> [] -> top_is L (mth L).
+  Proof.
+    intro H. exists (length L). apply ups_mth; [exact H|].
+    clear H. induction (length L); simpl; lia.
+  Qed.
+
+  Lemma top_is_ups t L r : top_is L r -> top_is (ups t L) r.
+  Proof. revert L; induction t as [|t IH]; intros L H; [exact H|]. cbn [MerkleSpec.ups]. apply IH, top_is_up, H. Qed.
+
+  Lemma top_is_unique L r1 r2 : top_is L r1 -> top_is L r2 -> r1 = r2.
+  Proof.
+    intros [F1 H1] [F2 H2].
+    assert (E : ups (F1 + F2) L = [r1]) by (rewrite ups_add, H1; apply ups_single).
+    assert (E2 : ups (F1 + F2) L = [r2]) by (rewrite Nat.add_comm, ups_add, H2; apply ups_single).
+    congruence.
+  Qed.
+
+  Theorem cons_sound_lists (D : list T) (m : nat) (old_root : T) (proof : list T) :
+    0 < m -> m <= length D ->
+    verify_consistency T teqb hc hempty (N.of_nat m) (N.of_nat (length D)) old_root (mth D) proof = VOk ->
+    collision \/ old_root = mth (firstn m D).
+  Proof.
+    intros Hm0 Hmn. unfold verify_consistency.
+    destruct (N.ltb_spec (N.of_nat (length D)) (N.of_nat m)) as [|_]; [lia|].
+    destruct (N.eqb_spec (N.of_nat m) (N.of_nat (length D))) as [E|Hne].
+    - (* equal sizes: the roots must be equal *)
+      destruct (teqb old_root (mth D)) eqn:Er; cbn [negb]; [|discriminate].
+      intros _. apply teqb_spec in Er. right. rewrite Er.
+      assert (m = length D) by lia. subst m. rewrite firstn_all. reflexivity.
+    - destruct (N.eqb_spec (N.of_nat m) 0) as [|_]; [lia|].
+      assert (Hlt : m < length D) by lia.
+      assert (HDne : D <> []) by (destruct D; simpl in *; [lia|congruence]).
+      replace (N.of_nat m - 1)%N with (N.of_nat (m - 1)) by lia.
+      replace (N.of_nat (length D) - 1)%N with (N.of_nat (length D - 1)) by lia.
+      rewrite strip_ones_spec.
+      set (f0 := N.size_nat (N.of_nat (m - 1))).
+      pose proof (size_nat_bound f0 (m - 1) eq_refl) as Hf0.
+      set (t := tones f0 (m - 1)).
+      pose proof (tones_decomp f0 (m - 1)) as Hdec. fold t in Hdec.
+      pose proof (tones_even f0 (m - 1) Hf0) as Heven. fold t in Heven.
+      set (i := (m - 1) / 2 ^ t) in *.
+      pose proof (pow2_pos t) as Hpt.
+      assert (Em : m = (i + 1) * 2 ^ t) by nia.
+      set (L := ups t D).
+      assert (HLne : L <> []) by (apply ups_length_pos; exact HDne).
+      assert (HlenL : length L - 1 = (length D - 1) / 2 ^ t).
+      { clear - HDne Hpt. subst L. revert D HDne. induction t as [|t IH]; intros D HDne.
+        - change (2 ^ 0) with 1. rewrite Nat.div_1_r. reflexivity.
+        - cbn [MerkleSpec.ups]. rewrite IH by (rewrite up_nil_iff; exact HDne).
+          rewrite (up_last_index D HDne), Nat.pow_succ_r', Nat.div_div by (try pose proof (pow2_pos t); lia).
+          reflexivity. }
+      rewrite <- HlenL.
+      assert (HiL : i < length L).
+      { assert (i <= (length D - 1) / 2 ^ t); [|lia].
+        subst i. apply Nat.div_le_mono; lia. }
+      assert (HtopL : top_is L (mth D)) by (apply top_is_ups, top_is_mth; exact HDne).
+      assert (Hold : mth (firstn m D) = mth (firstn (S i) L)).
+      { apply (top_is_unique (firstn (S i) L)).
+        - replace (S i) with (i + 1) by lia. unfold L. rewrite <- (old_prefix_level D m t i) by lia.
+          apply top_is_ups, top_is_mth. destruct D; simpl in *; [lia|]. destruct m; [lia|simpl; congruence].
+        - apply top_is_mth. destruct L; simpl in *; [lia|congruence]. }
+      destruct proof as [|p0 rest0]; [discriminate|].
+      set (fi := N.size_nat (N.of_nat i)).
+      pose proof (size_nat_bound fi i eq_refl) as Hfi.
+      destruct (N.eqb_spec (N.of_nat i) 0) as [Ei|Ei].
+      + (* the old tree is perfect: the computation starts from old_root *)
+        assert (i = 0) by lia.
+        destruct (Merkle.cons_loop _ _ _ _ _ _ _ _) as [[[[last' oh] nh] rest']|] eqn:Hc; [|discriminate].
+        destruct (Merkle.up_loop _ _ _ _ _) as [[nh' rest'']|] eqn:Hu; [|discriminate].
+        destruct (teqb nh' (mth D)) eqn:E1; cbn [negb]; [|discriminate].
+        destruct (teqb oh old_root) eqn:E2; cbn [negb]; [|discriminate].
+        intros _. apply teqb_spec in E1. apply teqb_spec in E2. subst nh'.
+        destruct (cons_loop_sound old_root fi L i _ _ _ _ _ _ _ _ _ HLne HiL eq_refl Hc Hu HtopL) as [C|[Ea Eb]]; [left; exact C|].
+        right. rewrite Hold. rewrite <- (old_x_mth T hc hempty old_root fi L i HiL Hfi). rewrite <- Ea.
+        rewrite <- Eb. symmetry. exact E2.
+      + destruct (Merkle.cons_loop _ _ _ _ _ _ _ _) as [[[[last' oh] nh] rest']|] eqn:Hc; [|discriminate].
+        destruct (Merkle.up_loop _ _ _ _ _) as [[nh' rest'']|] eqn:Hu; [|discriminate].
+        destruct (teqb nh' (mth D)) eqn:E1; cbn [negb]; [|discriminate].
+        destruct (teqb oh old_root) eqn:E2; cbn [negb]; [|discriminate].
+        intros _. apply teqb_spec in E1. apply teqb_spec in E2. subst nh'.
+        destruct (cons_loop_sound old_root fi L i _ _ _ _ _ _ _ _ _ HLne HiL eq_refl Hc Hu HtopL) as [C|[Ea Eb]]; [left; exact C|].
+        right. rewrite Hold. rewrite <- (old_x_mth T hc hempty old_root fi L i HiL Hfi). rewrite <- Ea.
+        rewrite <- Eb. symmetry. exact E2.
+  Qed.
 End Verify.
